@@ -114,3 +114,32 @@ Definition oms_le (ep : N) (oms oms' : list om) : Prop :=
     en_epoch x < ep \/ exists o', find_om oms' x = Some o' /\ om_cert o' = true.
 Definition good (f : om -> om) : Prop :=
   forall o, om_ent (f o) = om_ent o /\ (om_cert o = true -> om_cert (f o) = true).
+
+(* T7: the epoch-initialisation branch of the Idle cycle and its precompute error *)
+Definition idle_init (s : st) (prev : option tpoint) : bool :=
+  match prev with None => true | Some p => tp_epoch p <? tp_epoch (s_env s) end.
+Definition precompute_fails (s : st) (prev : option tpoint) : bool :=
+  (idle_init s prev && match genesis_epoch (s_certs s) with Some g => g <? tp_epoch (s_env s) | None => false end)
+  && (is_nil (reg_at (s_regs s) (tp_epoch (s_env s) - 1)) || is_nil (reg_at (s_regs s) (tp_epoch (s_env s)))).
+
+(* T4 supporting invariants: epoch service data, runtime state, open messages *)
+Definition ed_ok (ed : option edata) (regs : list (N * list N)) (env : tpoint) : Prop :=
+  forall d, ed = Some d ->
+    ed_cur d = reg_at regs (ed_ep d - 1) /\ ed_nxt d = reg_at regs (ed_ep d) /\ ed_ep d <= tp_epoch env.
+Definition rt_ok (r : rt) (env : tpoint) (ed : option edata) : Prop :=
+  match r with
+  | Idle (Some p) => tp_epoch p < tp_epoch env
+  | Ready cur => tp_epoch cur <= tp_epoch env /\ (forall d, ed = Some d -> ed_ep d = tp_epoch cur)
+  | Signing cur x => tp_epoch cur <= tp_epoch env /\ (forall d, ed = Some d -> ed_ep d = tp_epoch cur) /\
+                     en_epoch x = tp_epoch cur
+  | _ => True
+  end.
+Definition om_ok (oms : list om) (env : tpoint) (ed : option edata) (regs : list (N * list N)) : Prop :=
+  forall o, In o oms ->
+    en_epoch (om_ent o) <= tp_epoch env /\
+    (forall d, ed = Some d -> en_epoch (om_ent o) = ed_ep d) /\
+    om_next o = reg_at regs (en_epoch (om_ent o)) /\
+    (forall p ix, In (p, ix) (om_sigs o) -> mem p (reg_at regs (en_epoch (om_ent o) - 1)) = true).
+Definition Inv2 (s : st) : Prop :=
+  keys_ok (s_certs s) (s_regs s) /\ ed_ok (s_ed s) (s_regs s) (s_env s) /\
+  rt_ok (s_rt s) (s_env s) (s_ed s) /\ om_ok (s_oms s) (s_env s) (s_ed s) (s_regs s).
